@@ -38,10 +38,22 @@ func (n *Node) MarshalJSON() ([]byte, error) {
 		}
 		return json.Marshal(node{ID: n.ID})
 	}
-	n.Attributes["id"] = n.ID
-	b, err := json.Marshal(n.Attributes)
-	delete(n.Attributes, "id")
-	return b, err
+	// The receiver's map is not used to build the JSON object since
+	// that would overwrite and then remove an attribute with the name
+	// of the ID field, and is a data race when the same value is
+	// marshaled concurrently.
+	attrs := copyAttributes(n.Attributes, 1)
+	attrs["id"] = n.ID
+	return json.Marshal(attrs)
+}
+
+// copyAttributes returns a copy of attrs with room for extra more elements.
+func copyAttributes(attrs map[string]interface{}, extra int) map[string]interface{} {
+	c := make(map[string]interface{}, len(attrs)+extra)
+	for k, v := range attrs {
+		c[k] = v
+	}
+	return c
 }
 
 // UnmarshalJSON implements the json.Unmarshaler interface.
@@ -86,14 +98,11 @@ func (e *Edge) MarshalJSON() ([]byte, error) {
 		}
 		return json.Marshal(edge{ID: e.ID, Source: e.Source, Target: e.Target})
 	}
-	e.Attributes["id"] = e.ID
-	e.Attributes["source"] = e.Source
-	e.Attributes["target"] = e.Target
-	b, err := json.Marshal(e.Attributes)
-	delete(e.Attributes, "id")
-	delete(e.Attributes, "source")
-	delete(e.Attributes, "target")
-	return b, err
+	attrs := copyAttributes(e.Attributes, 3)
+	attrs["id"] = e.ID
+	attrs["source"] = e.Source
+	attrs["target"] = e.Target
+	return json.Marshal(attrs)
 }
 
 // UnmarshalJSON implements the json.Unmarshaler interface.
